@@ -34,6 +34,7 @@ type Case struct {
 type Finding struct{ Sig, Msg string }
 
 type Stats struct {
+	ProcsFaults int // simulated runs in which GOMAXPROCS was changed under the running call (c12 kinds)
 	Steps, Preempt, Tasks, MaxRunnable int
 	TraceHashes                        []string
 	Workers                            int
@@ -169,6 +170,7 @@ func RunCase(t *testing.T, c *Case, work, sched *choice.Source, st *Stats) (fs [
 		}
 		st.Steps, st.Preempt, st.Tasks, st.MaxRunnable = cst.Steps, cst.Preempt, cst.Tasks, cst.MaxRunnable
 		st.TraceHashes, st.Workers, st.Desc, st.MapDep = cst.TraceHashes, cst.Workers, cst.Desc, cst.MapDep
+		st.ProcsFaults = cst.ProcsFaults
 		for k, v := range cst.Probes {
 			for i := 0; i < v; i++ {
 				st.probe("c12." + k)
